@@ -694,5 +694,107 @@ theorem buildState_spec {s : StateInConstruction} (hwf : WFL s.transitions) (i :
         exact built_rawNext hwf' hd' hp hsucc i s.cleanup.isFinal hc
           (cleanup_preserves_delta hd.noConflict hx)
 
+/-- the transitions that survive `cleanup` are those that do not go to the final default -/
+theorem cleanup_transitions_eq {s : StateInConstruction} {d : Nat}
+    (h : s.cleanup.defaultSuccessor = some d) :
+    s.cleanup.transitions = s.transitions.filter (fun x => x.2 ≠ d) := by
+  unfold cleanup at h ⊢
+  rw [remove_default] at h
+  unfold removeTransitionsToDefault
+  rw [h]
+  simp only [choose_transitions]
+
+/-- if `cleanup` ends without a default, it changed nothing -/
+theorem cleanup_eq_self_of_none {s : StateInConstruction} (h : s.cleanup.defaultSuccessor = none) :
+    s.cleanup = s := by
+  unfold cleanup at h ⊢
+  rw [remove_default] at h
+  have hs : s.chooseDefaultSuccessor = s := by
+    unfold chooseDefaultSuccessor at h ⊢
+    split
+    · rename_i hc
+      rw [if_pos hc] at h
+      split
+      · rfl
+      · rename_i m hm
+        rw [hm] at h
+        dsimp only at h ⊢
+        split
+        · rename_i hge
+          rw [if_pos hge] at h
+          simp [setDefaultSuccessor] at h
+        · rfl
+    · rfl
+  rw [hs] at h ⊢
+  unfold removeTransitionsToDefault
+  rw [h]
+
+/-- in the state built, a default successor exists exactly when the complementary class of its
+    partition is non-empty -/
+theorem buildState_defValid {s : StateInConstruction} (hwf : WFL s.transitions) {i : Nat}
+    (hv : Verdict s none) {st : State} (h : s.buildState i = some (.ok st)) :
+    st.defaultSuccessor.isSome = !st.classes.emptyComplement := by
+  cases hv with
+  | valid hd hiff =>
+    have hsub := cleanup_transitions_sublist s
+    have hwf' : WFL s.cleanup.transitions := fun t ht => hwf t (hsub.subset ht)
+    have hd' : DisjL s.cleanup.transitions := hd.sublist hsub
+    obtain ⟨p, hp, _, _, _, hec⟩ := makePartition_ok hwf' hd'
+    -- identify `st`
+    have hst : st.classes = p ∧ st.defaultSuccessor = s.cleanup.defaultSuccessor := by
+      unfold buildState at h
+      split at h
+      · cases h
+      · split at h
+        · cases h
+        · split at h
+          · cases h
+          · dsimp only at h
+            rw [hp] at h
+            dsimp only at h
+            split at h
+            · cases h
+            · cases h; exact ⟨rfl, rfl⟩
+    rw [hst.1, hst.2]
+    cases hdd : s.cleanup.defaultSuccessor with
+    | none =>
+      -- nothing changed, no default declared: the labels are complete
+      have hself := cleanup_eq_self_of_none hdd
+      have hnone : s.defaultSuccessor = none := by rw [← hself]; exact hdd
+      have hcomp : s.Complete := by
+        refine Classical.byContradiction fun hn => ?_
+        have := hiff.2 hn
+        rw [hnone] at this
+        cases this
+      have : p.emptyComplement = true := hec.2 (by rw [hself]; exact hcomp)
+      simp [this]
+    | some d =>
+      have hnc : ¬ s.cleanup.Complete := by
+        rcases cleanup_default_mem hdd with hdecl | ⟨_, t, ht, htd⟩
+        · -- declared: `s` leaves a character uncovered, so does the cleaned-up state
+          have hsn : ¬ s.Complete := hiff.1 (by simp [hdecl])
+          intro hc
+          apply hsn
+          intro c hcm
+          obtain ⟨u, hu, huc⟩ := hc c hcm
+          exact ⟨u, hsub.subset hu, huc⟩
+        · -- promoted: the start of a removed label is no longer covered
+          intro hc
+          have htw := hwf t ht
+          obtain ⟨u, hu, huc⟩ := hc t.1.start (by have := htw.1; have := htw.2; omega)
+          rw [cleanup_transitions_eq hdd] at hu
+          obtain ⟨hul, hud⟩ := List.mem_filter.1 hu
+          simp only [ne_eq, decide_eq_true_eq] at hud
+          have htc : t.1.contains t.1.start = true := (contains_iff _ _).2 ⟨Nat.le_refl _, htw.1⟩
+          rcases pairwise_mem (R := fun t u : CharSet × Nat => Disj t.1 u.1)
+              (fun a b hab => Disj.symm hab) hd t ht u hul with rfl | hdis
+          · exact hud htd
+          · exact not_disj_of_common htc huc hdis
+      have : p.emptyComplement = false := by
+        cases hh : p.emptyComplement with
+        | false => rfl
+        | true => exact absurd (hec.1 hh) hnc
+      simp [this]
+
 end StateInConstruction
 end Smt
